@@ -481,6 +481,10 @@ class TypeGen:
             return f
         rfields += [defaulted(f"d{i}") for i in range(r.randint(1, 3))]
         d = {"k": "dc", "name": root, "bases": [], "mixin": mixin, "fields": rfields}
+        if r.random() < 0.3:
+            # the ROOT carries a Config of its own (aliases for its members, written by alias): a descendant that declares
+            # its own Config replaces it as a whole, one that declares none inherits it
+            d["config"] = {"aliases": repr({f["n"]: "RA_" + f["n"] for f in rfields if r.random() < 0.7}), "serialize_by_alias": "True"}
         self._fix_defaults(d)
         self.fam.add(d, self.value_maker)
         inherited = {f["n"]: f for f in rfields}
